@@ -1,7 +1,7 @@
 SPECIFICATION Spec
 CONSTANTS
-  MaxC = 3
-  MaxV = 2
-  MaxT = 4
-  MaxP = 2
+  MaxC = 9
+  MaxV = 6
+  MaxT = 15
+  MaxP = 3
 CHECK_DEADLOCK FALSE
